@@ -12,6 +12,7 @@ def stress_phase(scenario, tier, res, broken, seed=0):
         'cloneshared': [(2, 150, 50), (4, 150, 50)] + ([(2, 4000, 100), (3, 3000, 100), (4, 3000, 100), (8, 1000, 50)] if deep else []),
         'recordshared': [(2, 60), (4, 60)] + ([(2, 1500), (3, 1500), (4, 1500), (8, 500)] if deep else []),
         'reloadbusy': [(40,)] + ([(1500,)] if deep else []),
+        'lossycount': [(4, 4000), (8, 2000)] + ([(2, 200000), (4, 100000), (8, 50000), (16, 20000)] if deep else []),
     }[scenario]
     cases = ['%s %s' % (scenario, ' '.join(str(x) for x in p)) for p in params]
     outs, err = M.run_per_process([M.bin_path('h_stress')], cases, timeout=300)
